@@ -113,6 +113,7 @@ def oracle(ctx, seeds, scale):
         strs.append(d)
         strs += gen.mutations(rg, d, ctx.pick(4, 12))
     strs += deep_docs(ctx)
+    strs += gen.verb_docs() + gen.escape_docs() + gen.definition_docs() + gen.signature_probe_docs() + gen.length_boundary_docs()
     cases = [(s, t) for s in strs for t in (0, 1)]
     res = gen.pmap(_one, cases)
     worst = 0.0
